@@ -579,7 +579,7 @@ func (g *gctx) genSubquery() stmt {
 }
 
 func (g *gctx) genQuery() stmt {
-	switch fw.Weighted(g.t, "queryKind", []int{2, 4, 4, 2, 2, 3, 4, 2}) {
+	switch fw.Weighted(g.t, "queryKind", []int{2, 4, 4, 2, 2, 3, 4, 2, 5, 1}) {
 	case 0:
 		return g.genFilter()
 	case 1:
@@ -594,8 +594,12 @@ func (g *gctx) genQuery() stmt {
 		return g.genOrder()
 	case 6:
 		return g.genAnalytic()
-	default:
+	case 7:
 		return g.genSubquery()
+	case 8:
+		return g.genUDF()
+	default:
+		return g.genSweep()
 	}
 }
 
@@ -701,6 +705,7 @@ func genCaseFor(t *rapid.T, cli bool) detCase {
 		{Name: "t1.csv", Rows: c.N1, CSV: makeT1(r, c.N1, gDom)},
 		{Name: "t2.csv", Rows: c.N2, CSV: makeT2(r, c.N2)},
 		{Name: "t3.csv", Rows: c.N3, CSV: t3csv},
+		{Name: "t4.csv", Rows: c.N1, CSV: makeT4(r, c.N1)},
 	}
 	c.CPUs = cpuSettings
 	c.R = 3
@@ -718,6 +723,9 @@ func genCaseFor(t *rapid.T, cli bool) detCase {
 		c.Procs = append(c.Procs, fw.PickU(t, "gomaxprocs", []int{1, 2, 3, 4, 8, 16}))
 	}
 	g := &gctx{t: t, c: &c, t3ids: t3ids}
+	for _, d := range udfDecls {
+		g.add(stmt{SQL: d, Kind: "declare"})
+	}
 	nq := fw.Range(t, "nQueries", 1, 3)
 	for i := 0; i < nq; i++ {
 		g.add(g.genQuery())
@@ -735,6 +743,9 @@ func genCaseFor(t *rapid.T, cli bool) detCase {
 			g.add(stmt{SQL: "SELECT COUNT(*) AS n3, MAX(id) AS m3 FROM t3", Kind: "agg_all", Sel: true})
 		}
 	}
+	// every program ends with a sweep over the built-in scalar functions (last, so that a
+	// function failing on its arguments - identically on every run - cuts nothing else short)
+	g.add(g.genSweep())
 	return c
 }
 
@@ -952,7 +963,7 @@ func kindsOf(c detCase) []string {
 	seen := map[string]bool{}
 	var ks []string
 	for _, s := range c.Stmts {
-		if s.Kind == "probe" || s.Kind == "commit" || seen[s.Kind] {
+		if s.Kind == "probe" || s.Kind == "commit" || s.Kind == "declare" || seen[s.Kind] {
 			continue
 		}
 		seen[s.Kind] = true
@@ -967,7 +978,23 @@ func classesOf(c detCase) []string {
 	for _, k := range kindsOf(c) {
 		cl = append(cl, "kind:"+k)
 	}
+	cl = append(cl, fnTags(c)...)
 	return cl
+}
+
+// fnTags lists the built-in functions the sweeps of the program call ("fn:NAME").
+func fnTags(c detCase) []string {
+	seen := map[string]bool{}
+	var out []string
+	for _, s := range c.Stmts {
+		for _, t := range s.Tags {
+			if strings.HasPrefix(t, "fn:") && !seen[t] {
+				seen[t] = true
+				out = append(out, t)
+			}
+		}
+	}
+	return out
 }
 
 func checkCase(c detCase) (fw.Outcome, *fw.Violation) {
@@ -1027,6 +1054,11 @@ func checkCase(c detCase) (fw.Outcome, *fw.Violation) {
 		fw.AddExtra("parallel_cases", 1)
 		o.Classes = append(o.Classes, "parallel")
 		o.Fingerprint = strings.Join(kindsOf(c), "+") + fmt.Sprintf("|n1=%d", c.N1)
+		if c.N1 >= 2*query.MinimumRequiredPerCPUCore {
+			for _, f := range fnTags(c) {
+				o.More = append(o.More, f+"|per-row over >=160 rows")
+			}
+		}
 	} else {
 		o.Classes = append(o.Classes, "not_parallel")
 	}
